@@ -871,8 +871,40 @@ func (f *Frame) builtin(st *State, e *ast.CallExpr, name string, preArgs []*Term
 		st.pc = TFalse
 		return nil
 	case "copy":
-		c.note("copy() havocs destination")
-		f.fail(e, "copy unsupported")
+		// copy(dst, src) on value-semantic slices: the variable (or the sub-range dst[lo:hi] of the variable) that dst
+		// denotes receives the first n = min(len(dst), len(src)) elements of src; everything else keeps its content
+		d, sv := arg(0), arg(1)
+		dsl, ssl := c.slices[d.Sort], c.slices[sv.Sort]
+		if dsl == nil || ssl == nil || d.Sort == SByt {
+			f.fail(e, "copy: only slices of the same element sort are modelled")
+		}
+		dn, sn := c.sliceLen(d), c.sliceLen(sv)
+		n := c.define(Ite(Le(dn, sn), dn, sn), "copyn")
+		dstX := unparen(e.Args[0])
+		base, lo := dstX, IntLit(0)
+		if sx, isSlice := dstX.(*ast.SliceExpr); isSlice {
+			base = unparen(sx.X)
+			if sx.Low != nil {
+				lo = f.expr(st, sx.Low)
+			}
+		}
+		switch base.(type) {
+		case *ast.Ident, *ast.SelectorExpr, *ast.IndexExpr, *ast.StarExpr:
+		default:
+			f.fail(e, "copy: destination is not a variable or a sub-range of one")
+		}
+		bv := f.expr(st, base)
+		if bv.Sort != d.Sort {
+			f.fail(e, "copy: destination base of another slice sort")
+		}
+		oldArr := c.define(c.sliceArr(bv), "copyold")
+		srcArr := c.define(c.sliceArr(sv), "copysrc")
+		newArr := c.fresh("copied", oldArr.Sort)
+		i := c.bvar("i", SInt)
+		inRange := And(Ge(i, lo), Lt(i, Add(lo, n)))
+		c.assume(st, Forall([]*Term{i}, Eq(Select(newArr, i), Ite(inRange, Select(srcArr, Sub(i, lo)), Select(oldArr, i))), Select(newArr, i)))
+		f.store(st, f.lvalue(st, base), c.mkSlice(bv.Sort, c.sliceLen(bv), newArr))
+		return []*Term{n}
 	case "min", "max":
 		a, b := arg(0), arg(1)
 		if name == "min" {
